@@ -47,7 +47,8 @@ CLAIMED = {
              "successive hashes on the repetition stack, for startpos and for fen, as long as the 1024-entry stack is not overrun (sharp: "
              "one more is an index panic; 600 plies fit); and end-to-end against the FIDE specification: every FIDE-legal move written "
              "in UCI notation is accepted and yields the FIDE successor, and `position startpos|fen F moves ...` of a FIDE-legal game "
-             "yields the FIDE game state. Tied to the code by NewPosition runs (whole struct + history) vs the model, replay of the same "
+             "yields the FIDE game state; at the level of the whole-engine model the input LINE sets that position from any non-running state and the text of a "
+             "bestmove line appended to the next position command is accepted and sets the FIDE successor (GUI dialogue). Tied to the code by NewPosition runs (whole struct + history) vs the model, replay of the same "
              "UCI moves on the extracted specification, print/parse round trips of every legal move, and whole UCI sessions through the real "
              "handleInput (position, go, bestmove; complete stdout text) vs the sequential engine model Uci/Engine.v.",
         note="moves form a legal game; counters within byte range for the full-move/half-move fields (placement, side, rights, en-passant target unconditional); unicode.IsDigit table arbitrary",
@@ -61,7 +62,9 @@ CLAIMED = {
              "maximal execution of a dialogue whose infinite searches are stopped every go is answered exactly once and every isready "
              "too; an executed stop always finds its search and the bestmove follows within three steps of that goroutine; the reader "
              "never blocks on the mutex and answers isready within seven of its own steps; deadlock freedom. The three statement orders "
-             "of the original code are each refuted by an explicit schedule (D6-D8, repaired in /repo). Tied to the code by FORCING "
+             "of the original code are each refuted by an explicit schedule (D6-D8, repaired in /repo). The LTS and the sequential whole-engine model "
+             "(Uci/Engine.v, real search and parsers) are proved to agree under the sequential schedule (SeqRef: same events, same state), which transfers the "
+             "all-schedule clauses to the engine model's sessions. Tied to the code by FORCING "
              "schedules on the real handleInput/StartSearch/search goroutine through named scheduling points: every maximal execution "
              "of twelve short dialogues plus random ones, compared step-for-step with the model's prediction; random schedules judged by "
              "the property alone; real-process runs with back-to-back writes.",
@@ -121,7 +124,11 @@ CLAIMED = {
              "cache without mate values (necessary: witness; true of every engine-produced state) the answer is the null move IFF the root has "
              "no legal move, whatever the table, heuristics and cancellation point. Crash-freedom is proved (C05NoPanic): on a legal root no "
              "call of the search panics while the 1024-entry repetition stack has room (necessary: witness), and with termination an answer "
-             "is always produced. Tied to the code by differential runs of whole searches under a counting context (answer, every "
+             "is always produced. END TO END (EngineE2E, over the whole-engine model Uci/Engine.v): from any engine state that is not RUNNING with a "
+             "sane cache, `position startpos|fen .. moves ..` of a FIDE-legal game followed by a go line of standard parameters (depth not 255) prints "
+             "exactly one bestmove, a FIDE-legal move of the FIDE position reached if one exists and the null move otherwise; the answer heads the last "
+             "printed PV; the engine is idle again (remaining hypotheses: recursion depth of this search <= 255, discharged for ranked universes; stack room). "
+             "Tied to the code by differential runs of whole searches under a counting context (answer, every "
              "info line, node and poll counters) incl. warmed tables, and of whole UCI sessions through the real handleInput (complete stdout "
              "text vs the sequential engine model Uci/Engine.v); oracle: answer and PVs replayed on the engine's generator.",
         note="PV legality of info lines excludes runs in which an info line has score -32718 (aspiration alpha wraps to -32768); 'engine-legal' = FIDE-legal via C01; "
@@ -149,7 +156,10 @@ CLAIMED = {
              "removePrefixGarbage and the handleInput dispatch: parse_go never panics for ANY token list; every go line of distinct "
              "standard parameters in any order with in-range values yields exactly the record those parameters denote (nodes/mate "
              "acknowledged, fields untouched; empty or 'infinite' => infinite); unknown prefixes are skipped, lines without a command "
-             "word dispatch to nothing; a missing or non-integer value is reported and never panics. Tied to the code by differential "
+             "word dispatch to nothing; a missing or non-integer value is reported and never panics; over the whole-engine model (Uci/Engine.v: handleInput, "
+             "NewPosition, StartSearch + search goroutine, IsReady, StopSearch composed): every line is handled to its end for every engine state, line and oracle "
+             "(the model's bounds are never hit, except `go depth 255` whose uint8 loop has no depth limit - refuted with a witness), unknown lines change "
+             "nothing, prefixes are skipped, one bestmove per accepted go, refused go changes nothing, tables change only in go. Tied to the code by differential "
              "runs of VerifParseGo (fields and printed info strings) and of the real handleInput with a recording game; the oracle is "
              "an independent reference parser; whole UCI sessions through the real handleInput, game object and search goroutine against the "
              "sequential engine model Uci/Engine.v (complete stdout text); plus process-level liveness scripts against the real engine binary (tested, not proved).",
